@@ -216,12 +216,15 @@ pub fn main(env: &Env) -> i32 {
         check_net,
     ));
     let ntypes = c10::entries().len();
+    let what = format!(
+        "values reached through the decoders of all {ntypes} byte-level wire types (roles, std, storage, network): a valid encoding with one or two scalars, lengths or fields replaced by extreme ones (the generator of C10 decoders); \
+         whenever the decoder accepts, the decoded value x must satisfy decode(encode(x)) == x, encode(x) must be canonical and a fixed point; durations / timestamps with i64::MIN seconds are refused by the decoder and \
+         therefore never reach the oracle; non-trivial = a mutated input that was accepted; distinct = input bytes"
+    );
     parts.push(run_proptest(
         env,
         "decoded_values",
-        "values reached through the decoders of all 77 wire types (roles, std, storage, network): a valid encoding with one or two scalars, lengths or fields replaced by extreme ones (the generator of C10 decoders); \
-         whenever the decoder accepts, the decoded value x must satisfy decode(encode(x)) == x, encode(x) must be canonical and a fixed point; durations / timestamps with i64::MIN seconds are refused by the decoder and \
-         therefore never reach the oracle; non-trivial = a mutated input that was accepted; distinct = input bytes",
+        &what,
         PartOpts { cases: env.tier.pick(40_000, 1_000_000), max_shrink_iters: 2000, samples: 3 },
         move || (0..ntypes, proptest::collection::vec(any::<u16>(), 0..160)).prop_map(|(ty, choices)| c10::DecCase::new(ty, choices)),
         check_decoded,
